@@ -423,6 +423,10 @@ let run ~tier ~seed ~only acc =
   ] in
   List.iter (fun (klass, c, es) ->
     if want () then from_writer (case_rng ~seed ~engine ~index:!idx) ~klass c es; incr idx) directed;
+  (* lookups around every separator pair, the cut forced between the two keys *)
+  List.iter (fun (a, b) ->
+    if want () then from_writer (case_rng ~seed ~engine ~index:!idx) ~klass:"sep_pair_at_cut" base [ (a, String.make 1100 'v'); (b, "w"); (b ^ "\xff", "x") ];
+    incr idx) sep_pairs;
   let n = if tier = "thorough" then 400 else 36 in
   for _ = 1 to n do
     if want () then begin
